@@ -50,7 +50,7 @@ class SymScreen:
     def __init__(self, ctx, eng, L, cols=None, lines=None, *, geom_max=(140, 40), cursor='sym',
                  margins='sym', modes='sym', extra_mode=True, buffer='cells', tabstops=2, dirty='sym',
                  attr='sym', cell_attrs='sym', savepoints=0, titles='sym', charset='default',
-                 saved_columns='sym', hidden_cells=False, markers=None):
+                 saved_columns='sym', hidden_cells=False, markers=None, sp_charsets='sym'):
         self.ctx = ctx
         self.L = L
         S = L.screen
@@ -197,7 +197,7 @@ class SymScreen:
         # savepoints
         sps = []
         for i in range(savepoints):
-            sps.append(self._savepoint(ctx, L, 'sp%d' % i, tabs))
+            sps.append(self._savepoint(ctx, L, 'sp%d' % i, tabs, sp_charsets))
         f[S['savepoints']] = VecV(sps)
         if saved_columns == 'sym':
             sd = ctx.bvvar('savedcols_some', 64)
@@ -209,7 +209,7 @@ class SymScreen:
             f[S['saved_columns']] = NONE
         self.value = Agg('Screen', f)
 
-    def _savepoint(self, ctx, L, name, tabs):
+    def _savepoint(self, ctx, L, name, tabs, sp_charsets='sym'):
         P = L.savepoint
         sf = [None] * len(P)
         cf = [None] * len(L.cursor)
@@ -222,8 +222,12 @@ class SymScreen:
         cf[L.cursor['attr']] = sym_charopts(ctx, L, name + '_attr', ' ')
         sf[P['cursor']] = Agg('Cursor', cf)
         names = ['B', '0', 'U', 'V']
-        sf[P['g0_charset']] = tabs[names[ctx.concretize(_bounded(ctx, name + '_g0', 4))]]
-        sf[P['g1_charset']] = tabs[names[ctx.concretize(_bounded(ctx, name + '_g1', 4))]]
+        if sp_charsets == 'sym':
+            sf[P['g0_charset']] = tabs[names[ctx.concretize(_bounded(ctx, name + '_g0', 4))]]
+            sf[P['g1_charset']] = tabs[names[ctx.concretize(_bounded(ctx, name + '_g1', 4))]]
+        else:
+            sf[P['g0_charset']] = tabs['U']
+            sf[P['g1_charset']] = tabs['V']
         cs = ctx.bvvar(name + '_charset', 64)
         ctx.assume(z3.ULE(cs, 1))
         sf[P['charset']] = Enum('Charset', cs)
